@@ -994,3 +994,39 @@ PROPS["C06"] = dict(
     suites=[("untrusted", dict(cmp=cmp_c06, nontrivial=lambda p, i, m: len(p.split("|")[1].strip()) >= 6, shrink=False, timeout=7200,
                                what="refmt.UnmarshalAtlased into untyped/typed targets and TokenPump into the other format on adversarial and random bytes: class (ok/err/panic/hang) vs the model; measured allocation vs bound"))],
 )
+
+
+# ---------------------------------------------------------------------------
+# C09 wire level: wirenum  impl/model = "done <value> <hex>" | "err <hex>" | nowire | panic
+# ---------------------------------------------------------------------------
+
+def cmp_c09_wire(payload, impl, model):
+    fmtc, kind, dec = payload.split()
+    z = int(dec)
+    if impl == "nowire":
+        return None
+    if impl.startswith("panic"):
+        return viol("panic")
+    if kind in _INT_RANGES:
+        lo, hi = _INT_RANGES[kind]
+        if lo <= z <= hi:
+            if not impl.startswith("done (n %d) " % z):
+                return viol("%d fits %s but unmarshalling its %s serialization gave %s" % (z, kind, "JSON" if fmtc == "j" else "CBOR", impl[:80]))
+        elif not impl.startswith("err"):
+            return viol("%d does not fit %s but its %s serialization was stored as %s" % (z, kind, "JSON" if fmtc == "j" else "CBOR", impl[:80]))
+        return None
+    if kind == "a":
+        if -2 ** 63 <= z <= 2 ** 64 - 1:
+            m = re.match(r"done \(a (\S+) \(n (-?\d+)\)\)", impl)
+            if not m or int(m.group(2)) != z:
+                return viol("untyped slot: serialized %d, got %s" % (z, impl[:80]))
+        elif not impl.startswith("err"):
+            return viol("%d is beyond the 64-bit token range but was stored as %s" % (z, impl[:80]))
+        return None
+    if impl != model:
+        return viol("float target: model %s impl %s" % (model[:80], impl[:80]))
+    return None
+
+
+PROPS["C09"]["suites"].append(("wirenum", dict(cmp=cmp_c09_wire, nontrivial=lambda p, i, m: abs(int(p.split()[2])) > 1, shrink=False,
+                                                what="hand-serialized integers (JSON decimal text; CBOR major 0/1 heads) through refmt.Unmarshal into every integer kind, interface{} and floats: exact or error, against an independent range oracle; floats against the model")))
